@@ -65,9 +65,15 @@ func (vc *VC) execCall(fr *frame, n *Node, x *ssa.Call) {
 		}
 	}
 	if callee == nil {
-		if p, ok := c.Value.(*ssa.Parameter); ok {
+		_, isParam := c.Value.(*ssa.Parameter)
+		pureVals := fr.fc != nil && fr.fc.Options["funcvalues"] == "pure"
+		if vc.top != nil && vc.top.fc != nil && vc.top.fc.Options["funcvalues"] == "pure" {
+			pureVals = true
+		}
+		if isParam || pureVals {
+			p := c.Value
 			// function-typed parameter: an uninterpreted pure function (listed assumption)
-			vc.enc.notes[fmt.Sprintf("function-typed parameter %s of %s is treated as a pure function of its arguments", p.Name(), fr.fn.Name())] = true
+			vc.enc.notes[fmt.Sprintf("function value %s called in %s is treated as a pure function of its arguments", p.Name(), fr.fn.Name())] = true
 			fv := vc.value(fr, n, c.Value)
 			sorts := []string{"Int"}
 			ts := []string{fv.T}
